@@ -166,14 +166,15 @@ Definition known_C08_mdns (m : dmsg) : mdns_class :=
 (* ---------------------------------------------------------------- *)
 (* NBNS: parseNodeNameArray (nbns.go:172), processNBNSNodeStatusResponse (:213), loop (:238) *)
 
-(* the name loop: b is the array behind the count byte; returns whether a unique name was added *)
+(* the name loop (as repaired by d1f1b32): b is the array behind the count byte; returns whether
+   a unique name was added *)
 Fixpoint node_names (n : nat) (i : nat) (b : slice) (have : bool) : res bool :=
   match n with
   | O => Ok have
   | S n' =>
       (flags <- be16_at b (18 * i + 16) ;;
        if N.land flags 32768 =? 0 then
-         (_ <- sl b 0 16 ;; node_names n' (S i) b true)
+         (_ <- sl b (18 * i) (18 * i + 16) ;; node_names n' (S i) b true)
        else node_names n' (S i) b have)%res
   end.
 
@@ -182,15 +183,11 @@ Definition parse_node_name_array (b : slice) : res bool :=
   else
     (n <- idx b 0 ;;
      b' <- slfrom b 1 ;;
-     if Nat.ltb (len b') (N.to_nat n * 16 + 2) then Err EFrameLen
+     if Nat.ltb (len b') (N.to_nat n * 18) then Err EFrameLen
      else node_names (N.to_nat n) 0 b' false)%res.
 
 Definition node_status_response (b : slice) : res bool :=
   if Nat.ltb (len b) 3 then Err EOther else parse_node_name_array b.
-
-Definition known_C08_nbns_array (b : slice) : bool :=
-  let n := N.to_nat (nth 0 (arr b) 0) in
-  Nat.leb 3 (len b) && Nat.leb (n * 16 + 2) (len b - 1) && Nat.ltb (cap b - 1) (18 * n).
 
 Definition nbns_step (m : dmsg) (st : pstate) : lstep pstate unit :=
   match resource_header m st secAnswers with
@@ -218,15 +215,12 @@ Definition process_nbns (fuel : nat) (valid : bool) (m : dmsg) : res unit :=
   else if negb (m_skipq_ok m) then Err EOther
   else iter (nbns_step m) fuel start_state.
 
-Inductive nbns_class := NNone | NNotSkipped | NArray.
-(* first record with a parseable header in the answer walk that is not a node status answer,
-   or a node status answer whose name array is in the bound class *)
+Inductive nbns_class := NNone | NNotSkipped.
+(* the answer walk reaches a record with a parseable header that is not a node status answer *)
 Definition known_C08_nbns (valid : bool) (m : dmsg) : nbns_class :=
   if valid && m_start_ok m && m_response m && m_skipq_ok m then
     match spins (nbns_step m) pstate_eqb (2 * List.length (m_recs m) + 4) start_state with
     | Some _ => NNotSkipped
-    | None =>
-        if existsb (fun r => (r_type r =? 33) && known_C08_nbns_array (of_bytes (r_data r))) (m_recs m)
-        then NArray else NNone
+    | None => NNone
     end
   else NNone.
